@@ -717,6 +717,7 @@ def run(ctx):
     ctx.assume("tangent vectors handed to the library are Minkowski-orthogonal to their base point; (p, v) and (-p, -v) denote "
                "the same tangent vector, whose geometric direction is sign(p_0) v")
     ctx.assume("points are interior with Klein radius <= 0.9, distinct for directions; float coordinates")
+    ctx.assume("in H^1 a tangent vector determines its isometry, so force_oriented cannot be honoured there: the sections h1-* demand the image of the base tangent vector (the property's statement) for every value of force_oriented and make no demand on the determinant")
     ctx.assume("regular_polygon is called with a scalar angle or radius only (Python float / int, NumPy float64 / float32 / int64 / int32 "
                "scalars and 0-d arrays; no int8/int16, whose exp NumPy evaluates in half/single precision); angle in (0, (n-2)pi/n)")
     ctx.assume("distances t are real numbers packaged as Python float / int, NumPy float64 / float32 / int64 / int32 scalars or 0-d arrays, "
@@ -768,6 +769,24 @@ def run(ctx):
                              array_distances="ndarrays of the composite shape, dtypes %r, entries cycling through the t alphabet (two offsets)" % (ARRAY_DTYPES,)))
     ctx.product("unit-tangent-towards", "checks.c13:case_tangent_towards", pairs, chunk=8,
                 domains=dict(dom, note="all 16 representative pairs of (p, q)"))
+    # H^1: the frame (base point, vector) of a tangent vector is a full basis of R^(1,1), so the isometry is determined by the tangent
+    # vector and no orientation can be forced on it (wave 10 report: origin_to(force_oriented=True), the default, reversed every
+    # tangent vector pointing in the negative direction, and point_along walked the wrong way)
+    L1 = [p.tolist() for p in lattice.klein_points(1, mgen, seed)]
+    N1 = len(L1)
+    dom1 = {"dimension": 1, "points": N1, "representatives": REPS}
+    pairs1 = [{"n": 1, "p": p, "q": qq} for i, p in enumerate(L1) for j, qq in enumerate(L1) if i != j]
+    ctx.product("h1-origin-to", "checks.c13:case_origin_to", [{"n": 1, "p": p} for p in L1], chunk=4,
+                domains=dict(dom1, force_oriented=["default", True, False]))
+    ctx.product("h1-tangent-origin-to", "checks.c13:case_tangent_frame", pairs1, chunk=8,
+                domains=dict(dom1, lengths=[1.0, 0.4, 3.0], force_oriented=[True, False], note="all ordered pairs: both directions at every base point"))
+    ctx.product("h1-isometry-to", "checks.c13:case_isometry_to",
+                [{"n": 1, "p1": L1[i], "q1": L1[(i + a) % N1], "p2": L1[j], "q2": L1[(j + b) % N1]}
+                 for i in range(N1) for j in range(N1) if i != j for a, b in ((1, 2), (2, 1))], chunk=8,
+                domains=dict(dom1, force_oriented=["default", True, False], note="tv_i at p_i towards p_(i+a), all ordered pairs (i, j), (a, b) in {(1,2),(2,1)}"))
+    ctx.product("h1-point-along", "checks.c13:case_point_along", pairs1, chunk=8, domains=dict(dom1, t=TS))
+    ctx.product("h1-unit-tangent-towards", "checks.c13:case_tangent_towards", pairs1, chunk=8,
+                domains=dict(dom1, note="all 16 representative pairs of (p, q)"))
     ctx.product("angles", "checks.c13:case_angle", [{"n": n, "a": a, "pts": lat[n]} for n in dims for a in lat[n]],
                 chunk=1, domains=dict(dom, triples={n: len(lat[n]) * (len(lat[n]) - 1) ** 2 for n in dims},
                                       note="all (a; b, c) with b, c != a, including b = c and collinear triples"))
